@@ -4,7 +4,7 @@
   The rendering to an expression tree, the import computation and the naming of generated TypedDict classes are modelled
   (Model/Render.lean) and compared with the implementation as text on every generated type.  That evaluating the rendered text
   with the names the stub provides gives back the rendered type is checked directly on the implementation (the stub's import
-  block is really executed); it is NOT a Lean theorem (FULL STATEMENT below).  Three defects of the pinned tree that violate it
+  block is really executed); it is NOT a Lean theorem (FULL STATEMENT below).  Two defects of the pinned tree that violate it
   are open known findings (known_findings.txt).
 -/
 import MTVerif.Model.Render
@@ -62,6 +62,25 @@ theorem no_td_no_classesL (hint : String) : ∀ (i : Nat) (ts : List Ty), hasTDL
       simp only [hasTDL, Bool.or_eq_false_iff] at h
       simp only [tdNamesL, no_td_no_classes _ t h.1, no_td_no_classesL hint (i + 1) ts h.2, List.append_nil]
 end
+
+theorem importsF_mem (nm : Names) : ∀ (fs : List (String × Ty)) (k : String) (t : Ty), (k, t) ∈ fs →
+    ∀ i ∈ importsOf nm t, i ∈ importsF nm fs
+  | [], _, _, h, _, _ => by simp at h
+  | (k', t') :: fs, k, t, h, i, hi => by
+      simp only [importsF, List.mem_append]
+      rcases List.mem_cons.mp h with h | h
+      · cases h; exact Or.inl hi
+      · exact Or.inr (importsF_mem nm fs k t h i hi)
+
+/-- every name a field annotation of a generated TypedDict class needs is in the stub's import block — required or optional
+    field, at any depth (a nested TypedDict field is itself a `.td`, so this applies again to its fields) -/
+theorem td_fields_imported (nm : Names) (req opt : List (String × Ty)) (k : String) (t : Ty)
+    (h : (k, t) ∈ req ∨ (k, t) ∈ opt) : ∀ i ∈ importsOf nm t, i ∈ importsOf nm (.td req opt) := by
+  intro i hi
+  simp only [importsOf, List.mem_append]
+  rcases h with h | h
+  · exact Or.inl (importsF_mem nm req k t h i hi)
+  · exact Or.inr (importsF_mem nm opt k t h i hi)
 
 /-! the witnesses of the open findings, in the model -/
 example : hasNameCollision (tdNames "a" (.tuple [.tuple [.cls intC, .td [("p", .cls intC)] []], .td [("q", .cls strC)] []])) = true := by
